@@ -41,6 +41,156 @@ def install_abstractions(E):
     return vals_f, grad_f, mom_f, mlp_f
 
 
+# ---------------------------------------------------------------------------------------------------------------------
+# the helpers HMC.edit is built from, under contract themselves (so that the abstractions above are proved, not trusted):
+#   normal_score / assess_momenta   kinetic energy  = sum over ALL elements of ALL leaves of log N(mul * p; 0, 1)
+#   sample_momenta                  one standard-normal draw per selected leaf, of the leaf's shape, with pairwise independent
+#                                   keys derived from the given key (theory/keys.py), and their score
+#   selection_gradient              positions = the selected choices; the differentiated function assesses the model at
+#                                   (positions merged over the unselected choices, the primal arguments)
+# Trusted here: TFP's Normal (A10: Normal(0,1).log_prob(x) = -x^2/2 - log sqrt(2 pi) elementwise; .sample(seed=k) is a pure
+# function of the parameters and k with the shape of the parameters) and jax.grad (A7).
+HELPERS = [H + ":normal_sample", H + ":normal_score", H + ":assess_momenta", H + ":sample_momenta",
+           H + ":grad_tree_unzip", H + ":grad_tree_zip", H + ":selection_gradient"]
+
+
+class NormalDist:
+    """tfd.Normal(loc, scale)"""
+
+    def __init__(self, E, loc, scale):
+        self.E, self.loc, self.scale = E, loc, scale
+
+    def std_lp(self, x):
+        z3 = self.E.z3
+        c = z3.Real("half_log_2pi")
+        from pyvc.interp_ops import zreal
+        return SReal(-(zreal(x) * zreal(x)) / 2 - c)
+
+    def pyvc_getattr(self, I, name):
+        E, z3 = self.E, self.E.z3
+        from pyvc.values import Unsupported
+        if name == "log_prob":
+            def log_prob(I, v):
+                if not (self.loc == 0.0 and self.scale == 1.0):
+                    raise Unsupported("tfd.Normal.log_prob for non-standard parameters")
+                if isinstance(v, (SReal, float, int)) and not getattr(v, "vec", False):
+                    return self.std_lp(v)
+                if isinstance(v, Stacked):
+                    return Stacked(v.n, lambda i: self.std_lp(v.at(i)), tag="normal-logpdf")
+                if isinstance(v, UVal):
+                    vec = I.ctx.branch(I.ctx.fn("leaf_is_vector", U, z3.BoolSort())(v.t), tag="momentum_leaf_is_vector")
+                    return SReal(I.ctx.fn("std_normal_logpdf_array", U, z3.RealSort())(v.t), vec=vec)
+                raise Unsupported(f"tfd.Normal.log_prob of {type(v).__name__}")
+            return NativeFn("Normal.log_prob", log_prob)
+        if name == "sample":
+            def sample(I, seed=None, sample_shape=()):
+                draw = I.ctx.fn("std_normal_draw", U, z3.IntSort(), z3.RealSort())
+                k = I.to_u(seed)
+                if not self.scale == 1.0:
+                    raise Unsupported("tfd.Normal.sample with a non-unit scale")
+                if isinstance(self.loc, Stacked):
+                    return Stacked(self.loc.n, lambda i: SReal(zreal_(self.loc.at(i)) + draw(k, i)), tag="normal-sample")
+                return SReal(zreal_(self.loc) + draw(k, z3.IntVal(0)))
+            return NativeFn("Normal.sample", sample)
+        raise Unsupported(f"tfd.Normal.{name}")
+
+
+def zreal_(x):
+    from pyvc.interp_ops import zreal
+    return zreal(x)
+
+
+def install_tfd_normal(E):
+    z3 = E.z3
+    E.I.ext["distributions.Normal"] = lambda I, loc=0.0, scale=1.0: NormalDist(E, loc, scale)
+    # the normalising constant of the standard normal log-density: log sqrt(2 pi) = log(2 pi) / 2  (`log`, `pi` as used by
+    # code that writes the density in closed form)
+    log = E.ctx.fn("log", z3.RealSort(), z3.RealSort())
+    E.assume(z3.Real("half_log_2pi") == log(2 * z3.Real("pi")) / 2)
+
+
+def lp_total(E, v, mul=1.0):
+    """spec: sum over all elements of log N(mul * v_e; 0, 1) for a scalar real or a concrete-length vector of reals"""
+    z3 = E.z3
+    c = z3.Real("half_log_2pi")
+    m = zreal_(mul)
+    one = lambda x: -((m * zreal_(x)) * (m * zreal_(x))) / 2 - c
+    if isinstance(v, Stacked):
+        return z3.Sum([one(v.at(z3.IntVal(k))) for k in range(v.n)])
+    return one(v)
+
+
+@task("hmc.kinetic_energy", props=["C28"], functions=HELPERS)
+def t_kinetic(E):
+    z3 = E.z3
+    install_tfd_normal(E)
+    a = E.real("p_a")
+    b = Stacked(2, lambda i, xs=[E.real("p_b0"), E.real("p_b1")]: xs[i.as_long()] if z3.is_int_value(i) else
+                SReal(z3.If(i == 0, xs[0].t, xs[1].t)), tag="vector-leaf")
+    E.prove("C28.normal_score.scalar_leaf_is_its_log_density", E.eq(E.call(H + ":normal_score", a), SReal(lp_total(E, a))))
+    E.prove("C28.normal_score.vector_leaf_is_the_sum_of_elementwise_log_densities",
+            E.eq(E.call(H + ":normal_score", b), SReal(lp_total(E, b))))
+    u = E.opaque("p_leaf", "leaf")
+    r = E.call(H + ":normal_score", u)
+    lpa = E.ctx.fn("std_normal_logpdf_array", U, z3.RealSort())(u.t)
+    isv = E.ctx.fn("leaf_is_vector", U, z3.BoolSort())(u.t)
+    E.prove("C28.normal_score.array_leaf_of_any_rank_is_totalled",
+            E.eq(r, SReal(z3.If(isv, E.ctx.fn("sum_all", z3.RealSort(), z3.RealSort())(lpa), lpa))))
+    mul = E.real("mul")
+    momenta = {"a": a, "sub": {"b": b}}
+    e = E.call(H + ":assess_momenta", momenta, mul)
+    E.prove("C28.assess_momenta.is_the_sum_over_all_leaves_and_elements_of_the_scaled_momenta_log_densities",
+            E.eq(e, SReal(lp_total(E, a, mul) + lp_total(E, b, mul))))
+    e1 = E.call(H + ":assess_momenta", momenta)
+    E.prove("C28.assess_momenta.default_scale_is_one", E.eq(e1, SReal(lp_total(E, a) + lp_total(E, b))))
+    E.prove("C28.assess_momenta.is_even_in_the_momenta", E.eq(E.call(H + ":assess_momenta", momenta, -1.0), e1))
+    E.refutable("hmc.kinetic_energy", E.eq(e1, SReal(lp_total(E, a))))
+
+
+@task("hmc.sample_momenta", props=["C28", "C04"], functions=HELPERS)
+def t_sample_momenta(E):
+    from theory import keys as K
+    z3 = E.z3
+    install_tfd_normal(E)
+    k = key(E)
+    g_a = E.real("g_a")
+    g_b = Stacked(2, lambda i: SReal(E.ctx.fn("g_b", z3.IntSort(), z3.RealSort())(i)), tag="gradient-vector")
+    g_c = E.real("g_c")
+    grads = {"a": g_a, "sub": {"b": g_b, "c": g_c}}
+    momenta, score = E.call(H + ":sample_momenta", k, grads)
+    E.require("C28.sample_momenta.one_momentum_per_selected_leaf_same_tree_structure",
+              isinstance(momenta, dict) and set(momenta) == {"a", "sub"} and isinstance(momenta["sub"], dict)
+              and set(momenta["sub"]) == {"b", "c"})
+    ma, mb, mc = momenta["a"], momenta["sub"]["b"], momenta["sub"]["c"]
+    E.require("C28.sample_momenta.each_momentum_has_the_shape_of_its_leaf",
+              isinstance(ma, SReal) and isinstance(mc, SReal) and isinstance(mb, Stacked) and mb.n == 2)
+
+    def draw_key(t):
+        t = z3.simplify(t)
+        ks = []
+
+        def walk(e):
+            if z3.is_app(e) and e.decl().name() == "std_normal_draw":
+                ks.append(e.arg(0))
+            for ch in e.children():
+                walk(ch)
+        walk(t)
+        return ks
+    keys = [draw_key(ma.t), draw_key(mb.at(z3.IntVal(0)).t), draw_key(mb.at(z3.IntVal(1)).t), draw_key(mc.t)]
+    E.require("C28.sample_momenta.each_leaf_is_one_standard_normal_draw", all(len(x) == 1 for x in keys) and keys[1][0].eq(keys[2][0]))
+    ka, kb, kc = keys[0][0], keys[1][0], keys[3][0]
+    E.prove("C28.sample_momenta.a_leaf_is_exactly_a_zero_mean_unit_draw", E.And(
+        ma.t == E.ctx.fn("std_normal_draw", U, z3.IntSort(), z3.RealSort())(ka, z3.IntVal(0)),
+        zreal_(mb.at(z3.IntVal(1))) == E.ctx.fn("std_normal_draw", U, z3.IntSort(), z3.RealSort())(kb, z3.IntVal(1))))
+    pair_key_discipline(E, k, [ka, kb, kc], "sample_momenta")
+    for p in ("C28",):
+        E.prove(f"{p}.sample_momenta.leaves_draw_independently", E.And(
+            K.independent(E.I, ka, kb), K.independent(E.I, ka, kc), K.independent(E.I, kb, kc)))
+    E.prove("C28.sample_momenta.score_is_the_log_density_of_the_drawn_momenta",
+            E.eq(score, SReal(lp_total(E, ma) + lp_total(E, mb) + lp_total(E, mc))))
+    E.refutable("hmc.sample_momenta", ka == kb)
+
+
 @task("hmc.edit", props=["C28"], functions=FUNCS)
 def t_hmc(E):
     z3, T = E.z3, E.I.T
